@@ -53,7 +53,12 @@ MANIFEST = dict(
          "every outcome of every test on the line (len(readlines()), sum(1 for ...) without a filter are equivalent); (n) R04.8: the offset "
          "Records::read_sfile_header returns is, by abstract interpretation of the stream position over {integer, end of the END line + k, depends on the "
          "bytes read, unknown}, the end of the END line plus exactly the number of bytes SFile._write_header puts after it, so it cannot depend on what "
-         "the first row begins with.",
+         "the first row begins with; (o) in the header SFile._make_header returns, after the _DTYPE entry (for a text file also the _DELIM entry) is set, "
+         "no store under a key that can be that name -- the facts of the path are evaluated with the key bound to the name -- and no update() puts an "
+         "entry of the caller's header= there; (p) no path of Recfile.write / SFile.write, or of a function of the repository they call on a path not known "
+         "to be binary, that ends in raise is taken because of the type of a field of the property's list: the tests on <dtype>[name] / .fields[name][0] / "
+         "an entry of .descr and its kind / str / char / itemsize / base ... are evaluated over the finite domain {i1..u8, f4, f8, S} x {scalar, 1-d, 2-d} "
+         "x {'<', '>'} of abstract dtype records (module-level collections of literals that are never changed are read through).",
     note="Not decided: libc printf/scanf numeric round trip and libc's own spellings of NaN/inf (special values the code spells itself are decided). "
          "Assumes LP64 and that stdio calls succeed. Bounded shapes, not a proof for all sizes. The whitespace-directive hazard is a recorded known finding.",
     technique="static analysis: bounded symbolic execution of the C++ reader/writer and format-table code over the clang AST (trace comparison), "
@@ -3072,6 +3077,7 @@ def python_side(chk, repo, tu=None):
     recfile_write(chk, repo, tu)
     recfile_open(chk, repo)
     make_header(chk, repo)
+    text_types_accepted(chk, repo)
     sfile_open(chk, repo)
     read_back_unchanged(chk, repo)
     text_row_count(chk, repo)
@@ -3755,6 +3761,259 @@ def recfile_write(chk, repo, tu=None, binary=None, only_binary=False):
            + ("" if linear else " [Records::Write was not recognised as walking the buffer linearly]"))
 
 
+# ---- every column type of the property is accepted by the text writer (R04.3 ...::text-write-accepts-every-listed-type) -----------------------
+# A write entry point (and a function of the repository it calls on a path that is not known to be binary) may refuse a table: a path that ends in
+# `raise`.  When the tests that lead to the raise read the type of a field -- <dtype>[name], <dtype>.fields[name][0], an entry of <dtype>.descr,
+# and .base / .kind / .str / .char / .itemsize / .name / .byteorder of it -- they are evaluated over the finite domain of field types the property
+# quantifies over ({i1..u8, f4, f8, S1..S12} x {scalar, 1-d, 2-d} x {'<', '>'}; each type is an abstract record of the attributes numpy
+# documents for it, not a run of the code): no member of the domain may satisfy them all.
+_NP_CHAR = {"i1": "b", "u1": "B", "i2": "h", "u2": "H", "i4": "i", "u4": "I", "i8": "l", "u8": "L", "f4": "f", "f8": "d"}
+_NP_NAME = {"i": "int", "u": "uint", "f": "float"}
+
+
+class _FT:
+    """the documented attributes of the numpy dtype of one field"""
+
+    def __init__(self, code, order, shape=()):
+        kind, size = code[0], int(code[1:])
+        n = 1
+        for x in shape:
+            n *= x
+        self.shape, self.names, self.fields, self.ndim = tuple(shape), None, None, len(shape)
+        elem = self if not shape else _FT(code, order)
+        self.base = elem
+        self.subdtype = (elem, tuple(shape)) if shape else None
+        if shape:
+            self.kind, self.char, self.itemsize, self.byteorder = "V", "V", n * size, "|"
+            self.str, self.name, self.isnative = "|V%d" % (n * size), "void%d" % (8 * n * size), elem.isnative
+        elif kind == "S":
+            self.kind, self.char, self.itemsize, self.byteorder, self.str, self.name, self.isnative = "S", "S", size, "|", "|S%d" % size, "bytes%d" % (8 * size), True
+        else:
+            self.kind, self.char, self.itemsize = kind, _NP_CHAR[code], size
+            self.byteorder = "|" if size == 1 else ("=" if order == "<" else ">")
+            self.str, self.name, self.isnative = ("|" if size == 1 else order) + code, "%s%d" % (_NP_NAME[kind], 8 * size), size == 1 or order == "<"
+        self.text = (order if not (kind == "S" or size == 1) else "|") + code + (" sub-array %s" % (tuple(shape),) if shape else "")
+
+
+def _ft_domain():
+    return [_FT(c, o, sh) for c in list(NEEDED.values()) + ["S1", "S4", "S12"] for o in ("<", ">") for sh in ((), (3,), (2, 2))
+            if not (o == ">" and c[0] == "S")]
+
+
+def _is_dt(t, dparams):
+    return t is not None and ((t.op == "attr" and t.name == "dtype") or (t.op == "param" and t.name in dparams)
+                              or (_is_call(t, "dtype") and len(t.args) == 2 and _is_dt(t.args[1], dparams)))
+
+
+def _ft_root(t, dparams):
+    """'dtype' when the term is the dtype of a field of the table, 'str' when it is the type string of an entry of its descriptor"""
+    if t is None or t.op != "sub":
+        return None
+    b, i = t.args
+    if _is_dt(b, dparams) and not (i.op == "const" and isinstance(i.name, int)) and i.op != "other":
+        return "dtype"
+    if i.op == "const" and i.name == 0 and b.op == "sub" and b.args[0].op == "attr" and b.args[0].name == "fields" and _is_dt(b.args[0].args[0], dparams):
+        return "dtype"
+    if i.op == "const" and i.name == 1 and b.op == "elem" and b.args and b.args[0].op == "attr" and b.args[0].name == "descr" and _is_dt(b.args[0].args[0], dparams):
+        return "str"
+    return None
+
+
+_MUTATORS = ("append", "extend", "insert", "remove", "pop", "clear", "add", "discard", "update", "sort", "reverse", "setdefault", "popitem",
+             "difference_update", "intersection_update", "symmetric_difference_update", "__setitem__", "__delitem__")
+
+
+def _module_collection(mod, name):
+    """the members of a module-level list / tuple / set / frozenset display of literals (the keys of a dict display) bound once and never changed in the
+    module (no mutating method called on the name, no item assigned or deleted, not passed whole to a call); _NoEval otherwise"""
+    node = mod.consts.get(name) if mod is not None else None
+    if node is None or not _bound_once(mod, name):
+        raise _NoEval()
+    for x in ast.walk(mod.tree):
+        if isinstance(x, ast.Attribute) and isinstance(x.value, ast.Name) and x.value.id == name and x.attr in _MUTATORS:
+            raise _NoEval()
+        if isinstance(x, ast.Subscript) and isinstance(x.value, ast.Name) and x.value.id == name and isinstance(x.ctx, (ast.Store, ast.Del)):
+            raise _NoEval()
+
+    def members(n, depth=0):
+        if isinstance(n, ast.Call) and isinstance(n.func, ast.Name) and n.func.id in ("frozenset", "set", "tuple", "list") and len(n.args) == 1 and not n.keywords:
+            return members(n.args[0], depth + 1)
+        if isinstance(n, ast.Dict) and all(k is not None for k in n.keys):
+            n = ast.Tuple(elts=list(n.keys))
+        if isinstance(n, ast.BinOp) and isinstance(n.op, ast.Add) and depth < 4:
+            return members(n.left, depth + 1) + members(n.right, depth + 1)
+        if isinstance(n, ast.Name) and n.id != name and depth < 4:
+            return _module_collection(mod, n.id)
+        if not isinstance(n, (ast.List, ast.Tuple, ast.Set)):
+            raise _NoEval()
+        vs = [_literal(mod, e) for e in n.elts]
+        if any(v is _NODEF for v in vs):
+            raise _NoEval()
+        return tuple(vs)
+    return members(node)
+
+
+def _tyev(t, T, dparams, mod=None):
+    """the python value of a term when the field it speaks about has the type T; _NoEval for anything not modelled"""
+    if t is None:
+        raise _NoEval()
+    t = _unbool(t)
+    r = _ft_root(t, dparams)
+    if r == "dtype":
+        return T
+    if r == "str":
+        return T.base.str
+    o = t.op
+    if o == "const":
+        return t.name
+    if o == "name":
+        return _module_collection(mod, t.name)
+    ev = lambda x: _tyev(x, T, dparams, mod)          # noqa: E731
+    plain = lambda *vs: all(isinstance(v, (str, int, bool, tuple, bytes, type(None))) for v in vs)          # noqa: E731
+    try:
+        if o == "attr":
+            b = ev(t.args[0])
+            if isinstance(b, _FT) and t.name in ("kind", "char", "str", "itemsize", "name", "byteorder", "base", "shape", "names", "fields", "subdtype", "isnative", "ndim"):
+                return getattr(b, t.name)
+            raise _NoEval()
+        if o == "seq" and t.name in ("tuple", "list", "set"):
+            return tuple(ev(x) for x in t.args)
+        if o == "sub":
+            b = ev(t.args[0])
+            i = t.args[1]
+            if not plain(b):
+                raise _NoEval()
+            if i.op == "other" and i.name == "slice" and len(i.args) == 3:
+                return b[slice(*[ev(x) for x in i.args])]
+            return b[ev(i)]
+        if o == "cmp":
+            a, b = ev(t.args[0]), ev(t.args[1])
+            if t.name in ("is", "is not") and (a is None or b is None):
+                return (a is b) == (t.name == "is")
+            if not plain(a, b) or (isinstance(b, tuple) and not plain(*b)):
+                raise _NoEval()
+            return {"==": lambda: a == b, "!=": lambda: a != b, "in": lambda: a in b, "not in": lambda: a not in b,
+                    "<": lambda: a < b, "<=": lambda: a <= b, ">": lambda: a > b, ">=": lambda: a >= b}[t.name]()
+        if o == "not":
+            return not ev(t.args[0])
+        if o == "bool":
+            vs = [ev(x) for x in t.args]
+            res = vs[0]
+            for x in vs[1:]:
+                res = (res and x) if t.name == "and" else (res or x)
+            return res
+        if o == "binop" and t.name == "Add":
+            a, b = ev(t.args[0]), ev(t.args[1])
+            if plain(a, b):
+                return a + b
+        if o == "call" and t.args[0] is not None and not t.kw and t.name in ("startswith", "endswith", "lower", "upper", "strip", "lstrip", "rstrip") and len(t.args) <= 2:
+            recv = ev(t.args[0])
+            if isinstance(recv, str):
+                return getattr(recv, t.name)(*[ev(x) for x in t.args[1:]])
+        if o == "call" and t.args[0] is None and not t.kw and t.name in ("len", "str", "int") and len(t.args) == 2:
+            a = ev(t.args[1])
+            if plain(a):
+                return {"len": len, "str": str, "int": int}[t.name](a)
+    except _NoEval:
+        raise
+    except Exception:
+        raise _NoEval()
+    raise _NoEval()
+
+
+def _refused_type(st, dparams, entry, mod=None):
+    """a raise path: (True, None) no listed type takes it / it does not depend on a field's type; (False, T) the listed type T takes it;
+    (None, why) open"""
+    facts = st.facts()
+    about = [(t, b) for t, b in facts if _mentions(t, lambda x: _ft_root(x, dparams) is not None) is not None]
+    if not about:
+        return True, None
+    rest = [(t, b) for t, b in facts if not any(t is x for x, _b in about)]
+    open_ = None
+    for T in _ft_domain():
+        sat, unknown = True, False
+        for t, b in about:
+            try:
+                if bool(_tyev(t, T, dparams, mod)) != b:
+                    sat = False
+                    break
+            except _NoEval:
+                unknown = True
+        if not sat:
+            continue
+        if unknown:
+            open_ = open_ or "a test on the type of a field is not modelled: %s" % "; ".join(_txt(t) for t, _b in about)[:200]
+            continue
+        other = [t for t, _b in rest if not (entry and _txt(t).startswith("self."))]
+        if other:
+            open_ = open_ or "the refusal of %s also depends on %s" % (T.text, "; ".join(_txt(t) for t in other)[:200])
+            continue
+        return False, T
+    return (None, open_) if open_ else (True, None)
+
+
+def text_types_accepted(chk, repo):
+    m = ("a table whose fields are of the types of the property (i1..u8, f4, f8, fixed-width bytes; scalars or sub-arrays; either byte order) is not refused "
+         "by the text write path: no path that ends in raise is taken because of the type of such a field")
+    for qual, flag, binary_when in (("esutil.recfile.Util.Recfile.write", "self.is_ascii", False), ("esutil.sfile.SFile.write", "self._delim is None", True)):
+        try:
+            fi = repo.func(qual)
+        except Exception:
+            continue
+        key = "%s.%s::text-write-accepts-every-listed-type" % (fi.cls, fi.name)
+        try:
+            px = _PX(repo, stop=_PY_STOP)
+            res = px.run(fi)
+        except _Unrec as e:
+            chk.ob("R04.3", key, None, fi.where(), "%s [path evaluation of %s gave up: %s]" % (m, fi.name, e))
+            continue
+        vs, notes, callees = [True], [], {}
+        for status, ret, st in res:
+            if st.known.get(flag) is binary_when:
+                continue
+            if status == "raise":
+                r, x = _refused_type(st, (), True, fi.module)
+                vs.append(r)
+                if r is False:
+                    notes.append("%s raises for a field of type %s on the path where %s" % (fi.name, x.text, " and ".join(
+                        "%s%s" % ("" if b else "not ", _txt(t)) for t, b in st.facts())[:300]))
+                elif r is None:
+                    notes.append(x)
+            for e in st.events:
+                if e[0] != "call" or e[1].name in _PY_STOP:
+                    continue
+                c = e[1]
+                recv = c.args[0]
+                if recv is None or (recv.op in ("name", "attr") and _pure(recv) and not _txt(recv).startswith("self")):
+                    tgt = repo.funcs.get(repo.resolve_name(fi.module, (_txt(recv) + "." if recv is not None else "") + c.name))
+                elif recv.op == "param" and recv.name == "self" and fi.cls:
+                    tgt = repo.funcs.get("%s.%s.%s" % (fi.module.name, fi.cls, c.name))
+                else:
+                    tgt = None
+                if tgt is None or tgt.qualname == fi.qualname:
+                    continue
+                params = [p for p in tgt.params if not p.startswith("*")][(1 if tgt.cls else 0):]
+                dps = {p for p, a in zip(params, c.args[1:]) if _is_dt(a, ())} | {p for k, a in c.kw.items() for p in params if p == k and _is_dt(a, ())}
+                callees.setdefault(tgt.qualname, (tgt, set()))[1].update(dps | ({"dtype"} & set(params)))
+        for q, (tgt, dps) in sorted(callees.items()):
+            try:
+                cres = _PX(repo, stop=_PY_STOP).run(tgt)
+            except _Unrec:
+                continue              # not a construct this rule is about unless it can be read
+            chk.analysed_unit(q)
+            for status, ret, st in cres:
+                if status != "raise":
+                    continue
+                r, x = _refused_type(st, tuple(dps), False, tgt.module)
+                vs.append(r)
+                if r is False:
+                    notes.append("%s, called by %s before the text rows are written, raises for a field of type %s: the tests %s hold for it" % (
+                        tgt.name, fi.name, x.text, " and ".join("%s%s" % ("" if b else "not ", _txt(t)) for t, b in st.facts())[:300]))
+                elif r is None:
+                    notes.append("%s: %s" % (tgt.name, x))
+        chk.ob("R04.3", key, _verdict(vs), fi.where(), m + ((" (%s)" % "; ".join(notes[:3])) if notes else ""))
+
+
 def _udtype(v):
     """the dtype the caller asked for: a parameter / keyword named dtype, possibly passed through numpy.dtype"""
     if v is None:
@@ -3961,6 +4220,95 @@ def make_header(chk, repo):
     extra = (" (%s)" % "; ".join(notes[:3])) if notes else ""
     chk.ob("R04.3", k1, _verdict(v1), mh.where(), m1 + extra)
     chk.ob("R04.3", k2, _verdict(v2), mh.where(), m2 + extra)
+    # the entries the reader trusts are the library's own: nothing of the caller's header= lands on them afterwards
+    m3 = ("the _DTYPE entry (and for a text file the _DELIM entry) of the header that is written is the one computed from the table and the file: "
+          "after it is set, nothing taken from the caller's header= is stored under a key that can be that name")
+    k3 = "SFile._make_header::own-entries-not-overridden-by-caller-header"
+    v3, notes3 = [], []
+    for ret, st in paths:
+        text = _fold(_V("cmp", "is not", [_V("attr", "_delim", [_V("param", "self")]), _V("const", None)]), st)
+        for name in ("_DTYPE",) + (("_DELIM",) if text else ()):
+            r, why = _own_entry_kept(ret, st, name)
+            if r is not None or why:
+                v3.append(r)
+            if why and why not in notes3:
+                notes3.append(why)
+    chk.ob("R04.3", k3, _verdict(v3), mh.where(), m3 + ((" (%s)" % "; ".join(notes3[:3])) if notes3 else ""))
+
+
+def _key_may_be(i, name, st):
+    """Can the subscript term i be the string `name` on this path?  False: a fact of the path rules it out (the fact is evaluated with the key
+    bound to the name: key.lower() not in (...), key != '_DTYPE', key.upper() in RESERVED -> continue all decide) or the key runs over
+    constants that do not contain it; True: the key comes from a parameter and nothing rules the name out; None: not known here"""
+    if i.op == "const":
+        return i.name == name
+    for t, truth in st.facts():
+        try:
+            if bool(_cev(t, i, name)) != truth:
+                return False
+        except _NoEval:
+            continue
+    src = i
+    while src.op in ("elem", "sub") or (src.op == "call" and src.name in ("keys", "items", "list", "sorted", "iter", "tuple", "copy", "deepcopy", "dict")):
+        if src.op == "elem" and src.args and ((src.args[0].op == "seq" and all(x.op == "const" for x in src.args[0].args)) or src.args[0].op == "const"):
+            vals = [x.name for x in src.args[0].args] if src.args[0].op == "seq" else src.args[0].name
+            try:
+                return name in vals
+            except TypeError:
+                return None
+        nxt = [x for x in src.args if x is not None]
+        if not nxt:
+            break
+        src = nxt[0]                      # the iterated / indexed object, the receiver of keys() / items(), the argument of list() / sorted()
+    if src.op == "param" and src.name not in ("self", "data"):
+        return True
+    return None
+
+
+def _own_entry_kept(ret, st, name):
+    """(True / False / None, note): after the last store of <returned dict>[name] no store / update can put a value of the caller there"""
+    hk, slot = _hkey(ret), "['%s']" % name
+    if (hk, slot) not in st.heap:
+        return None, None                      # reported by the rule on the entry itself
+    same = lambda b: b is not None and (b is ret or _hkey(b) == hk)          # noqa: E731
+    last = -1
+    for n, e in enumerate(st.events):
+        if e[0] == "store" and same(e[1]) and e[2] == slot:
+            last = n
+        elif e[0] == "call" and e[1].name == "update" and same(e[1].args[0]):
+            lit = [a for a in e[1].args[1:] if a.op == "seq" and a.name == "dict"]
+            if name in e[1].kw or any(k.op == "const" and k.name == name for a in lit for k in a.args[0::2]):
+                last = n
+    res, why = True, None
+    for e in st.events[last + 1:]:
+        r = True
+        if e[0] == "store" and same(e[1]) and len(e) > 4 and e[4] is not None and e[2] != slot:
+            r = _key_may_be(e[4], name, st)
+            if r is not True:
+                r = True if r is False else None
+                msg = "after %s is set, %s[%s] = %s is stored and the key is not known here" % (name, _txt(ret), _txt(e[4]), _txt(e[3]))
+            else:
+                r = False
+                msg = ("after %s is set, %s[%s] = %s is stored and no test on the path keeps the key from being '%s': an entry of that name in the caller's "
+                       "header replaces the library's" % (name, _txt(ret), _txt(e[4]), _txt(e[3]), name))
+        elif e[0] == "call" and e[1].name == "update" and same(e[1].args[0]):
+            for a in e[1].args[1:]:
+                if a.op == "seq" and a.name == "dict" and all(k.op == "const" for k in a.args[0::2]):
+                    continue
+                src = a
+                while src.op == "call" and src.name in ("deepcopy", "copy", "dict") and len(src.args) >= 2:
+                    src = src.args[-1] if src.args[0] is None or src.name != "copy" else src.args[0]
+                if src.op == "param" and src.name not in ("self", "data"):
+                    r, msg = False, "after %s is set, %s overwrites it with an entry of that name in the caller's header" % (name, _txt(e[1]))
+                else:
+                    r, msg = None, "after %s is set, %s may overwrite it" % (name, _txt(e[1]))
+            if "**" in e[1].kw:
+                r, msg = None, "after %s is set, %s may overwrite it" % (name, _txt(e[1]))
+        if r is False:
+            return False, msg
+        if r is None:
+            res, why = None, msg
+    return res, why
 
 
 _FOLDS = {"lower": str.lower, "upper": str.upper, "casefold": str.casefold}
